@@ -72,9 +72,10 @@ def monitors(r):
         bad.append(("lost_wakeup", "all live threads blocked, %d asleep, while the counter is %d" % (r["sleepers"], r["ctr"])))
     elif r["end"] == "stuck" and r["sleepers"] > 0 and r["permits"] >= 0 and r["owned"] < r["permits"]:
         # whatever the counter's encoding: fewer guards are alive than there are permits, yet every live thread sleeps
-        bad.append(("lost_wakeup", "all live threads blocked, %d asleep, while only %d of %d permits are held (counter %d)" % (
-            r["sleepers"], r["owned"], r["permits"], r["ctr"])))
-    if r["end"] == "done" and r["owned"] == 0 and r["ctr"] != r["permits"]:
+        bad.append(("lost_wakeup", "all live threads blocked, %d asleep, while only %d of %d permits are held (counter %s)" % (
+            r["sleepers"], r["owned"], r["permits"], "unknown" if r["ctr"] == -(1 << 63) else r["ctr"])))
+    # (counter unknown = the protected state is no longer a plain integer: only the counter-independent monitors apply)
+    if r["end"] == "done" and r["owned"] == 0 and r["ctr"] != r["permits"] and r["ctr"] != -(1 << 63):
         bad.append(("not_restored", "all guards dropped but counter=%d, permits=%d" % (r["ctr"], r["permits"])))
     return bad
 
